@@ -56,6 +56,13 @@ func (e *Engine) exec(st *State, fr *Frame, instr ssa.Instruction) []*State {
 		}
 		stt := x.X.Type().Underlying().(*types.Pointer).Elem().Underlying().(*types.Struct)
 		f := stt.Field(x.Field)
+		if f.Embedded() {
+			if _, isStruct := f.Type().Underlying().(*types.Struct); isStruct {
+				// the fields of an embedded struct are (promoted) fields of the object itself
+				set(x, PtrV{Key: base.Key, T: f.Type(), Obj: base.Obj, Field: base.Field, Arr: base.Arr, Idx: base.Idx})
+				break
+			}
+		}
 		bb := base
 		set(x, PtrV{Key: base.Key + "." + f.Name(), T: f.Type(), Obj: &bb, Field: f.Name()})
 	case *ssa.IndexAddr:
